@@ -98,7 +98,7 @@ def replay(rp):
 def plan(tier, seed):
     if tier == 'quick':
         return [{'examples': 800, 'steps': 30} for _ in range(16)]
-    return [{'examples': 1500, 'steps': 50} for _ in range(32)]
+    return [{'examples': 6000, 'steps': 50} for _ in range(32)]
 
 
 def run(tier, seed):
